@@ -1038,3 +1038,19 @@ mut('c17-skip-incomplete', 'C17', ['C17.5'], S,
     "        if not self.wal_path:\n            return None\n\n        try:\n            event_json",
     "        if not self.wal_path:\n            return None\n        if event.event_status != 'completed':\n            return None\n\n        try:\n            event_json",
     'events that are not complete yet when processed get no WAL line')
+mut('c16-revert-f16', 'C16', ['C16.3'], S,
+    "                current_task = asyncio.current_task()\n                if current_task is not None and current_task.cancelling():\n                    break\n",
+    "",
+    'run loop no longer re-checks cancelling(): cancellations absorbed by cleanup arms are lost (F16 reverted)')
+mut('c16-guard-skipped-after-error', 'C16', ['C16.3'], S,
+    "                except Exception as e:\n                    logger.exception(f'❌ {self} Error in event loop: {type(e).__name__} {e}', exc_info=True)\n                    # Continue running even if there's an error\n",
+    "                except Exception as e:\n                    logger.exception(f'❌ {self} Error in event loop: {type(e).__name__} {e}', exc_info=True)\n                    # Continue running even if there's an error\n                    continue\n",
+    'after a contained error the iteration restarts without the cancelling() check')
+mut('c19-retry-on-normalised', 'C19', ['C19.7'], H,
+    "        @wraps(func)\n        async def wrapper(*args: P.args, **kwargs: P.kwargs) -> T:  # type: ignore[return]\n            # Initialize semaphore-related variables\n",
+    "        @wraps(func)\n        async def wrapper(*args: P.args, **kwargs: P.kwargs) -> T:  # type: ignore[return]\n            nonlocal retry_on\n            retry_on = tuple(retry_on) if retry_on else None\n            # Initialize semaphore-related variables\n",
+    'empty retry_on collapses to None')
+mut('c20-discard-idle-semaphore', 'C20', ['C20.6'], H,
+    "                        elif semaphore:\n                            semaphore.release()\n",
+    "                        elif semaphore:\n                            semaphore.release()\n                            if not semaphore.locked():\n                                GLOBAL_RETRY_SEMAPHORES.pop(sem_key, None)\n",
+    'a semaphore with a free slot is dropped from the registry while others still hold it')
